@@ -100,6 +100,8 @@ PROPS = {
                 "with the predicate of the property. Every cell is counted as a distinct case.",
         "assumptions": COMMON_ASSUMPTIONS[1:] + [
             "readers/writers used for the stream entry points never fail, so any Err is a rejection",
+            "the default-configuration searchers of every second list come from the option-less constructors "
+            "(AhoCorasick::new, noncontiguous/contiguous NFA::new, DFA::new); "
             "the matrix runs twice: in the release build and in the overflow-checked build (stage 'checked': "
             "-C overflow-checks=on -C debug-assertions=on), where silently wrapping arithmetic panics"],
         "exhaustive": True,
